@@ -34,7 +34,7 @@ PROGRAM_THEOREMS = {
     "C04": ["accepted_getter", "accepted_setter", "accepted_wide"], "C05": ["accepted_getter", "accepted_setter"],
     "C08": ["accepted_getter"], "C11": ["accepted_setter", "accepted_history"],
     "C12": ["accepted_history", "LegalStep.ok"], "C13": ["accepted_builder", "chainCalls_ok"],
-    "C14": ["accepted_builder", "pieces_disjoint_of_writable", "ranges_disjoint_of_pieces"], "C06": ["expand_inv"], "C16": ["accepted_history_profile_independent", "accepted_oob", "accepted_wide"],
+    "C14": ["accepted_builder", "pieces_disjoint_of_writable", "ranges_disjoint_of_pieces"], "C06": ["expand_inv", "accepted_default", "accepted_no_default"], "C16": ["accepted_history_profile_independent", "accepted_oob", "accepted_wide"],
 }
 
 
